@@ -19,15 +19,18 @@
 //!
 //! kinds: `c18` = model (one case per permutation of the sources), `spec-c18-dirs` = spec (reachability),
 //! `c18-perms` / `c18-exact` / `c18-reach` = oracles evaluated here on the real outputs.
-//! `c18-cli` (corpus only) = the same order-independence oracle on the real `qmluic generate-ui` BINARY
-//! (`$QV_QMLUIC_BIN`, else /repo/target/{release,debug}/qmluic): exit status and the set/content of the
-//! written `.ui` files must be the same for every order of the source arguments.
+//! `c18-cli` (oracle) and `c18-cliout` (model) run the real `qmluic generate-ui` BINARY built from /repo's
+//! current working tree (`crate::env::cli_binary()`, `$QV_QMLUIC_BIN` overrides) in a fresh copy of the layout:
+//! `c18-cli`: exit status and the set + content of the written `.ui` files are the same for every order of the
+//! source arguments (≤ 6 orders per generated layout; all orders in the corpus); `c18-cliout`: exit status and
+//! written files equal the Lean model's `cliRun` over the per-source outcomes — answer
+//!   (cli (exit 0|1) (written "a/x.ui" …)).
 use crate::env::{self, Mode};
 use crate::rng::Rng;
 use crate::sexp::{atom, boolean, list, node, st, Sexp};
 use crate::xml;
 use crate::{Case, Stream};
-use camino::{Utf8Path, Utf8PathBuf};
+use camino::Utf8PathBuf;
 use qmluic::diagnostic::ProjectDiagnostics;
 use qmluic::metatype;
 use qmluic::metatype_tweak;
@@ -697,13 +700,6 @@ impl C18 {
     }
 }
 
-fn qmluic_bin() -> Option<std::path::PathBuf> {
-    if let Ok(p) = std::env::var("QV_QMLUIC_BIN") {
-        return Some(p.into());
-    }
-    ["/repo/target/release/qmluic", "/repo/target/debug/qmluic"].iter().map(std::path::PathBuf::from).find(|p| p.is_file())
-}
-
 /// One CLI run in a fresh copy of the layout: (exit status, written .ui files with their content).
 fn run_cli(bin: &std::path::Path, layout: &Layout, srcs: &[Source]) -> (i32, BTreeMap<String, String>) {
     let m = Materialised::new(layout);
@@ -803,7 +799,12 @@ impl Stream for C18 {
             cases.push(Case { kind: "spec", labels: labels.clone(), request: node("spec-c18-dirs", args.clone()) });
             cases.push(Case { kind: "oracle", labels: labels.clone(), request: node("c18-perms", args.clone()) });
             cases.push(Case { kind: "oracle", labels: labels.clone(), request: node("c18-exact", args.clone()) });
-            cases.push(Case { kind: "oracle", labels, request: node("c18-reach", args) });
+            cases.push(Case { kind: "oracle", labels: labels.clone(), request: node("c18-reach", args.clone()) });
+            // the real binary: order independence (≤ 6 orders) and, for two orders, the model of the loop
+            cases.push(Case { kind: "oracle", labels: labels.clone(), request: node("c18-cli6", args.clone()) });
+            cases.push(Case { kind: "model", labels: labels.clone(), request: node("c18-cliout", args) });
+            let rev: Vec<Source> = srcs.iter().rev().cloned().collect();
+            cases.push(Case { kind: "model", labels, request: node("c18-cliout", vec![qt.clone(), tree.clone(), sources_sexp(&rev)]) });
         }
         cases
     }
@@ -861,11 +862,20 @@ impl Stream for C18 {
                 }
                 node("ok", vec![atom(perms.len().to_string())])
             }
-            "c18-cli" => {
-                let Some(bin) = qmluic_bin() else { return node("no-binary", vec![]) };
+            "c18-cli" | "c18-cli6" => {
+                let bin = env::cli_binary();
                 let mut rng = Rng::fork(srcs.len() as u64, "c18-cli", layout.dirs.len() as u64);
-                let perms = sample_perms(&srcs, &mut rng);
+                let mut perms = sample_perms(&srcs, &mut rng);
+                if tag == "c18-cli6" && perms.len() > 6 {
+                    // the given order, its reverse, and four more spread over the enumeration
+                    let n = perms.len();
+                    let pick: Vec<usize> = vec![0, n - 1, n / 5, 2 * n / 5, 3 * n / 5, 4 * n / 5];
+                    perms = pick.into_iter().map(|i| perms[i].clone()).collect();
+                }
                 let first = run_cli(&bin, &layout, &perms[0]);
+                if first.0 != 0 && first.0 != 1 {
+                    return node("violation", vec![atom("cli-exit-status"), atom(first.0.to_string())]);
+                }
                 for p in &perms[1..] {
                     let cur = run_cli(&bin, &layout, p);
                     if cur != first {
@@ -881,6 +891,14 @@ impl Stream for C18 {
                     }
                 }
                 node("ok", vec![atom(perms.len().to_string())])
+            }
+            "c18-cliout" => {
+                let bin = env::cli_binary();
+                let (code, written) = run_cli(&bin, &layout, &srcs);
+                node(
+                    "cli",
+                    vec![node("exit", vec![atom(code.to_string())]), node("written", written.keys().map(|k| st(k.clone())).collect())],
+                )
             }
             "c18-exact" => {
                 // every accepted output: each custom class once; header by the file-name rule; `extends` is the
